@@ -9,7 +9,7 @@ CHECKS = {
     "C01": dict(
         category="model_checking",
         technique="stateless DFS over all resolutions of the generator's random decisions (random seam), explicit-state reachability over trees under the search operators, deviation-bounded exploration of the real fuzz loop",
-        text="(A) for every grammar of the family and node budgets 0/3/10 (thorough 0/1/3/6/10) all resolutions of Grammar.fuzz's random decisions are executed (production budgets 50/200 deviation-bounded); (B) from all small generated trees of seven collision specs, mutate / crossover / repair are applied under every resolution of their random decisions and new trees are expanded further; (C) Fandango.fuzz(population 3, 2 generations) is executed for every resolution within deviation bound 1 (thorough 2) of two base executions. (D) on specs whose generator text also parses as another symbol, every history of <= 1 (thorough 2) parse requests (whole forest / first tree / API parse, every start symbol) is followed by Grammar.fuzz from every symbol under every resolution. Every tree produced anywhere is checked by the RefGrammar derivation checker and its serialisation must be a word of the language.",
+        text="(A) for every grammar of the family and node budgets 0/3/10 (thorough 0/1/3/6/10) all resolutions of Grammar.fuzz's random decisions are executed (production budgets 50/200 deviation-bounded); (B) from all small generated trees of seven collision specs, mutate / crossover / repair are applied under every resolution of their random decisions and new trees are expanded further; (C) Fandango.fuzz(population 3, 2 generations) is executed for every resolution within deviation bound 1 (thorough 2) of two base executions. (D) on specs whose generator text also parses as another symbol, every history of <= 1 (thorough 2) parse requests (whole forest / first tree / API parse, every start symbol) is followed by Grammar.fuzz from every symbol under every resolution. Every tree produced anywhere is checked by the RefGrammar derivation checker and its serialisation must be a word of the language. Also: a generator returning the deprecated tuple form (shape not a derivation), and open-ended repetitions whose declared minimum is above the repetition cap in force (a refusal is an answer, a short tree is not).",
         note="Not exhaustive: decision trees are capped (caps reported in evidence), the loop is explored to a deviation bound. MAX_REPETITIONS is lowered to 2-3 to bound randint fan-out.",
         design="4 C01",
     ),
@@ -44,7 +44,7 @@ CHECKS = {
     "C09": dict(
         category="model_checking",
         technique="bounded-exhaustive enumeration of tree shapes x all accessor orders on one tree object against a reference fold",
-        text="Every sequence of <= 3 atoms (thorough: nesting depth 3, plus every sequence of 4 atoms over a core of six) over text/non-ASCII text/empty text/bytes/bit leaves/4-bit and 8-bit runs x every nesting into <= 3 levels x all 24 orders of str/bytes/to_bits/int on the same tree object; each result is compared with RefValue, must not depend on nesting or accessor order, and the tree and every Terminal value object must be unchanged afterwards.",
+        text="Every sequence of <= 3 atoms (thorough: nesting depth 3, plus every sequence of 4 atoms over a core of six) over text/non-ASCII text/empty text/bytes/bit leaves/4-bit and 8-bit runs x every nesting into <= 3 levels x all 24 orders of str/bytes/to_bits/int on the same tree object; each result is compared with RefValue, must not depend on nesting or accessor order, and the tree and every Terminal value object must be unchanged afterwards. Each tree is additionally queried after a history of views under a non-default encoding (on the root / on every node, 4 rotations each); afterwards the str and bytes views of EVERY node must equal those of a freshly built, never queried copy.",
         note="Trusted: RefValue in mc/checks/c09.py written from the property statement. Two deviations are recorded known findings.",
         design="4 C09",
     ),
@@ -58,7 +58,7 @@ CHECKS = {
     "C11": dict(
         category="model_checking",
         technique="explicit-state BFS over histories of evaluate/mutate/crossover/repair/in-place edit/equal-hash twins against one long-lived evaluator, differential oracle against a fresh spec",
-        text="Breadth-first search (depth 2 quick / 3 thorough) on four specs (computed repetition, nested and sibling quantifiers, generator with arguments, equality repair): after every transition every live tree is evaluated by the long-lived evaluator and constraint objects (warm caches) and by a brand-new spec + evaluator; fitness, verdict and failing paths must coincide. Drivers force hash coincidences (structurally equal trees that differ in repetition tags or generator sources) and in-place edits below evaluated nodes.",
+        text="Breadth-first search (depth 2 quick / 3 thorough) on four specs (computed repetition, nested and sibling quantifiers, generator with arguments, equality repair): after every transition every live tree is evaluated by the long-lived evaluator and constraint objects (warm caches) and by a brand-new spec + evaluator; fitness, verdict and failing paths must coincide. Drivers force hash coincidences (structurally equal trees that differ in repetition tags or generator sources) and in-place edits below evaluated nodes. Five specs, among them quantifiers that rebind the very symbol they range over.",
         note="Failing parts are compared as paths inside their own root. Two cache-key defects are recorded known findings.",
         design="4 C11",
     ),
@@ -72,21 +72,21 @@ CHECKS = {
     "C13": dict(
         category="model_checking",
         technique="exhaustive enumeration of all 2^(n-1) fragmentations of every input on the real incremental parser, differential against the one-shot parse plus a reference viable-prefix oracle",
-        text="For every grammar of a fragmentation family (multi-character literals, regexes, alternatives sharing prefixes, repetitions, bytes/bit fields) and every input up to length 5 (thorough: 6, and operator depth 2 at length 5) every composition into consecutive fragments is fed through new_parse()/consume(); complete trees after the last fragment must equal the one-shot result, and can_continue() may be False only if no extension is in the reference language.",
+        text="For every grammar of a fragmentation family (multi-character literals, regexes, alternatives sharing prefixes, repetitions, bytes/bit fields) and every input up to length 5 (thorough: 6, and operator depth 2 at length 5) every composition into consecutive fragments is fed through new_parse()/consume(); complete trees after the last fragment must equal the one-shot result, and can_continue() may be False only if no extension is in the reference language. Every composition is also fed in prefix mode (ParsingMode.INCOMPLETE; complete trees after the last fragment == one-shot prefix-mode request), and one long-lived parser object serves all schedules of a grammar (new_parse() per request), as Parser and the packet parser use it.",
         note="Grammars with an empty-deriving body under */+ are included since the C06 repair. Two regex-split deviations are recorded known findings.",
         design="4 C13",
     ),
     "C04": dict(
         category="model_checking",
         technique="bounded-exhaustive explicit enumeration: every grammar of a family x every input up to a length bound on the real parser, each verdict compared with a reference matcher",
-        text="All grammars of operator depth <= 2 over collision atoms (plus recursion templates, inner start symbols, byte/bit/regex binary atoms) x all words up to length 4 (quick) / 6 (thorough) over the alphabet plus a foreign character are parsed by the real Earley parser; every yielded tree is checked by an independent derivation checker, must serialise exactly to the input and contain no helper symbols, and non-members must yield nothing; the same for twelve computed-repetition templates against a combinator reference. Through Fandango.parse with constraints, yielded trees must satisfy the reference constraint semantics.",
+        text="All grammars of operator depth <= 2 over collision atoms (plus recursion templates, inner start symbols, byte/bit/regex binary atoms) x all words up to length 4 (quick) / 6 (thorough) over the alphabet plus a foreign character are parsed by the real Earley parser; every yielded tree is checked by an independent derivation checker, must serialise exactly to the input and contain no helper symbols, and non-members must yield nothing; the same for twelve computed-repetition templates against a combinator reference. Through Fandango.parse with constraints, yielded trees must satisfy the reference constraint semantics. The computed-repetition sweep includes records with a separator between count and repetition (equal last terminal, different counts); the API part also configures the spec object for every other start symbol and demands the forest from that symbol.",
         note="Trusted: RefGrammar (mc/refgrammar.py) and Python's re. Small-scope: grammars/words beyond the bounds are not covered.",
         design="4 C04",
     ),
     "C05": dict(
         category="model_checking",
         technique="bounded-exhaustive explicit enumeration of (grammar, word) pairs against a reference language enumerator; generator choice-tree exploration for the round trip",
-        text="Every word of the reference language (regex leaves taking the match re.match prefers: narrowest reading of the property's class) up to the length bound must parse to >= 1 tree with identical serialisation, for the same grammar family as C04.",
+        text="Every word of the reference language (regex leaves taking the match re.match prefers: narrowest reading of the property's class) up to the length bound must parse to >= 1 tree with identical serialisation, for the same grammar family as C04. Also: the parse forest of every word up to 5 symbols of an ambiguous grammar (three start symbols) must contain every independently enumerated derivation (a constraint may single out any of them).",
         note="Trusted: RefGrammar and, for computed repetitions, the combinator reference of mc/computed_sweep.py. The empty-regex-match defect was repaired for the basic shapes; its residue under nested repetitions and the generated-word/non-preferred-regex-split deviation are recorded known findings.",
         design="4 C05",
     ),
@@ -100,14 +100,14 @@ CHECKS = {
     "C14": dict(
         category="model_checking",
         technique="bounded-exhaustive enumeration of spec texts (all line sequences up to a length bound over a lexer-oriented line alphabet, plus shipped specs), differential comparison of the two front ends on every text",
-        text="The C++ front end is rebuilt from /repo's current cpp_parser sources (cached by source hash). Every text of <= 2 lines over a 20-line alphabet and <= 3 lines over a core alphabet (thorough: 3 lines over all, 4 over a core), with and without final newline, and with LF / CRLF / bare-CR line endings - rule lines, rules continued over open brackets, where lines, def headers, bodies at indent 1/2 with spaces or tabs, blank and comment lines, f-strings (also with brackets in their literal text), generators, unbalanced brackets, dedents to unseen levels, NUL characters, a byte-order mark - plus the shipped .fan files go through both front ends in one process; parse trees (rule names, token types and texts) and extracted Python code must be identical, or both must reject with the same error class.",
+        text="The C++ front end is rebuilt from /repo's current cpp_parser sources (cached by source hash). Every text of <= 2 lines over a 20-line alphabet and <= 3 lines over a core alphabet (thorough: 3 lines over all, 4 over a core), with and without final newline, and with LF / CRLF / bare-CR line endings - rule lines, rules continued over open brackets, where lines, def headers, bodies at indent 1/2 with spaces or tabs, blank and comment lines, f-strings (also with brackets in their literal text), generators, unbalanced brackets, dedents to unseen levels, NUL characters, a byte-order mark - plus the shipped .fan files go through both front ends in one process; parse trees (rule names, token types and texts) and extracted Python code must be identical, or both must reject with the same error class. The line alphabet includes blanks-then-tab indentation and f-strings nested in replacement fields followed by plain strings.",
         note="Two genuine disagreements (leading byte-order mark, NUL inside a token) were repaired in /repo. Trusted: the comparison harness; INDENT/DEDENT token text is ignored (lexer-base artefact nothing downstream reads). Built with cmake/g++ -O2 rather than the project's LTO flags.",
         design="4 C14",
     ),
     "C15": dict(
         category="model_checking",
         technique="bounded-exhaustive enumeration of specs (grammars over printer-oriented atoms, C07 constraint family); read - print - re-read round trip compared structurally / by verdicts on all enumerated trees",
-        text="~2450 grammars (operator depth <= 2 over literals with both quote kinds, backslashes, non-ASCII, non-printables, bytes, str/bytes regexes with quotes, bits, groups under every postfix operator, every bound form, generators, computed repetitions; operator-depth-3 grouping frames: postfix operator over a concatenation/alternative whose first/middle/last elements are groups; the same text as literal and regex, str and bytes, in one spec; whole rule bodies that begin and end with a group) and ~900 (thorough ~1800) constraint programs: the generated text is read, printed with repr(grammar) / format_as_spec(), and the printed text is read again. The re-read grammar must denote the same language (both converted node by node into RefGrammar, structural comparison confirmed by a distinguishing word), generators must survive, and the re-read constraint must give the same verdict on every enumerated tree.",
+        text="~2450 grammars (operator depth <= 2 over literals with both quote kinds, backslashes, non-ASCII, non-printables, bytes, str/bytes regexes with quotes, bits, groups under every postfix operator, every bound form, generators, computed repetitions; operator-depth-3 grouping frames: postfix operator over a concatenation/alternative whose first/middle/last elements are groups; the same text as literal and regex, str and bytes, in one spec; whole rule bodies that begin and end with a group) and ~900 (thorough ~1800) constraint programs: the generated text is read, printed with repr(grammar) / format_as_spec(), and the printed text is read again. The re-read grammar must denote the same language (both converted node by node into RefGrammar, structural comparison confirmed by a distinguishing word), generators must survive, and the re-read constraint must give the same verdict on every enumerated tree. Also regexes containing both quote kinds and open-ended bounds at and around the process-wide repetition cap (19/20/21).",
         note="Two printer defects were repaired; three are recorded known findings.",
         design="4 C15",
     ),
@@ -121,7 +121,7 @@ CHECKS = {
     "C17": dict(
         category="model_checking",
         technique="exhaustive enumeration of environment-seam combinations (heap layout x clock offset x import order) per configuration, each in a fresh process, outputs compared byte for byte",
-        text="48 (thorough 160) configurations (16 specs spanning grammar-only, constraints, computed repetitions, equality repair, generators, regexes, bits, soft constraints, ambiguity, wide ambiguity, ambiguous generator output, explicit conjunctions, conditional-expression constraints x seeds x population sizes, plus one 20-generation run per spec) are each run in 8 fresh processes, one per combination of two heap layouts (garbage allocated before importing fandango shifts every id()), two clock offsets and two import orders, with the same PYTHONHASHSEED; the ordered solution sequence, the returned list, the parse forest and the first tree must be identical across all children.",
+        text="48 (thorough 160) configurations (16 specs spanning grammar-only, constraints, computed repetitions, equality repair, generators, regexes, bits, soft constraints, ambiguity, wide ambiguity, ambiguous generator output, explicit conjunctions, conditional-expression constraints x seeds x population sizes, plus one 20-generation run per spec) are each run in 8 fresh processes, one per combination of two heap layouts (garbage allocated before importing fandango shifts every id()), two clock offsets and two import orders, with the same PYTHONHASHSEED; the ordered solution sequence, the returned list, the parse forest and the first tree must be identical across all children. Two further specs: a forall failing for several elements of one individual, and a computed repetition whose bounds form a real range.",
         note="Decides independence from these three sources for these configurations only; os.urandom/uuid4 are not intercepted.",
         design="4 C17",
     ),
@@ -135,7 +135,7 @@ CHECKS = {
     "C19": dict(
         category="model_checking",
         technique="explicit-state BFS over message histories driving the real forecaster and DerivationTree.append, compared state by state with a reference message-level language",
-        text="For ~1300 protocol grammars (plus ~1250, thorough ~2500, sliced specs) of operator depth <= 2 over message atoms <A:B:m1>, <B:A:m2>, <A:B:m3> (|, concatenation, ?, *, +, {2}, {1,2}, {2,}, {0,2}, nesting through intermediate symbols, recursion) every history reachable by mounting forecast options (every message type x every mounting path) up to 5 (thorough 6) messages is explored, on the unsliced spec and on the spec sliced to each single party; in every state the predicted (sender, recipient, type) set must equal the letters that extend the history to a prefix of the reference language and complete_trees must be non-empty exactly for full interactions.",
+        text="For ~1300 protocol grammars (plus ~1250, thorough ~2500, sliced specs) of operator depth <= 2 over message atoms <A:B:m1>, <B:A:m2>, <A:B:m3> (|, concatenation, ?, *, +, {2}, {1,2}, {2,}, {0,2}, nesting through intermediate symbols, recursion) every history reachable by mounting forecast options (every message type x every mounting path) up to 5 (thorough 6) messages is explored, on the unsliced spec and on the spec sliced to each single party; in every state the predicted (sender, recipient, type) set must equal the letters that extend the history to a prefix of the reference language and complete_trees must be non-empty exactly for full interactions. Also grammars in which one state symbol is referenced from two frontier positions, and sliced specs on whose grammar object a forecaster had already been used before slicing.",
         note="Messages between two external parties are covered with an erasing projection as reference (grammars where an invisible alternative branch makes that reading ambiguous are skipped there). Specs sliced with slice_parties to {A} and to {B} are judged against the projection to the kept party under either reading of slicing (erase / remove). A forecast that exceeds the parser budget is reported as a cap, not judged. Two deviations are recorded known findings; the slicing defect (wrong node removed) was repaired.",
         design="4 C19",
     ),
